@@ -38,6 +38,7 @@ EXPLANATION = (
     'alone calculation (runtime).')
 ASSUMPTIONS = ["pandas .at / .loc address the same cell for a scalar index", "the higher heating value property is positive"]
 TECHNIQUE = "normal forms of the conversion factors and control-step formulas; structural agreement of sibling arms"
+EXPLANATION += (' ' + '(R20.10) prepare_run_ctrl of the multinet stores level, controller_order (both derived from the multinet) and errors on every call; no such store is guarded by a look into the ctrl_variables dictionary other than `is None`.')
 
 
 def _cls(ix, name):
